@@ -114,4 +114,21 @@ def run(ctx):
             r.finish(cur, PEER[cls] + G.Base.scalarmult(7 % q or 1).to_bytes())
             r.serialize(cur)
             traces.append(r.json())
+    # volume: very long password and identities (state blobs of more than a megabyte), persisted and revived twice
+    for ps, g, cls, npw, nid in ([("Pi11", "i11", "A", 700000, 1000), ("PEd25519", "Ed25519", "S", 1000, 600000)] +
+                                 ([("P1024", "I1024", "B", 300000, 300000)] if thorough else [])):
+        G = uni.group(g)
+        q = G.order()
+        r = Run("volume/%s/%s" % (g, cls), uni)
+        pw = bytes((7 * i + 3) % 256 for i in range(251)) * (npw // 251)
+        ida = bytes((5 * i + 1) % 256 for i in range(241)) * (nid // 241)
+        r.new("a", cls, ps, pw, ida, b"short" if cls != "S" else b"")
+        r.start("a", mp.stream_for(g, 3 % q))
+        cur = "a"
+        for n in range(2):
+            blob = r.serialize(cur)
+            if blob is not None and r.restore("c%d" % n, cls, ps, blob) is not None:
+                cur = "c%d" % n
+        r.finish(cur, PEER[cls] + G.Base.scalarmult(2 % q or 1).to_bytes())
+        traces.append(r.json())
     ctx.validate(traces, uni, what="persist/restore")
